@@ -729,7 +729,9 @@ func diffStates(a, b []objState) []Write {
 		}
 		if !graphs.EqVals(a[id].contents, b[id].contents) {
 			ws = append(ws, Write{id, 2, fr})
-		} else if fr && a[id].hdr != nil && len(a[id].hdr) == len(b[id].hdr) {
+		} else if fr && a[id].hdr != nil && len(a[id].hdr) != len(b[id].hdr) {
+			ws = append(ws, Write{id, 2, fr}) // memory was allocated for a frozen object
+		} else if fr && a[id].hdr != nil {
 			// a frozen object: not one byte of the Go object may change
 			for k := range a[id].hdr {
 				if a[id].hdr[k] != b[id].hdr[k] && k != a[id].froff && !(a[id].itoff >= 0 && k >= a[id].itoff && k < a[id].itoff+4) {
